@@ -255,45 +255,9 @@ func c27Close(c *core.Ctx, closeFn *core.FuncInfo, isRealClose func(*core.CallSi
 		}
 		c.Need(g != nil && n == 1, "the close function, or one helper it calls, reads refCounter[name]")
 	}
-	var counter *types.Var
-	for _, a := range assignments(g) {
-		if ix, ok := ast.Unparen(a.RHS).(*ast.IndexExpr); ok && a.RHS != nil && fieldNameOf(g, ix.X) == refc {
-			counter = varOf(g, a.LHS)
-		}
-	}
-	isCounterCell := func(e ast.Expr) bool {
-		ix, ok := ast.Unparen(e).(*ast.IndexExpr)
-		return ok && fieldNameOf(g, ix.X) == refc
-	}
-	namer := func(e ast.Expr) string {
-		if (counter != nil && varOf(g, e) == counter) || isCounterCell(e) {
-			return "counter"
-		}
-		return ""
-	}
-	lin := func(want string) func(core.Fact) bool {
-		w := core.ParseLinCmp(want)
-		return func(ft core.Fact) bool {
-			lc, ok := core.NormLinCmp(g.Info(), ft, namer)
-			return ok && lc.Equal(w)
-		}
-	}
-	guarded := func(pt core.Point, want string) bool {
-		ok, _ := g.GuardedBy(pt, lin(want))
-		return ok
-	}
-	// counter == 1: one equality test, or the two bounds counter >= 1 and counter <= 1
-	isLast := func(pt core.Point) (bool, []core.Point) {
-		ok, wit := g.GuardedBy(pt, lin("counter - 1 == 0"))
-		if ok {
-			return true, nil
-		}
-		return guarded(pt, "-counter + 1 <= 0") && guarded(pt, "counter - 1 <= 0"), wit
-	}
-	// counter >= 2: one test, or counter >= 1 and counter != 1
-	isMore := func(pt core.Point) bool {
-		return guarded(pt, "-counter + 2 <= 0") || (guarded(pt, "-counter + 1 <= 0") && guarded(pt, "counter - 1 != 0"))
-	}
+	// the counter tests of g in linear normal form (shared with the eviction clause: see c27Counter)
+	kf := c27CounterOf(g, refc)
+	counter, isCounterCell, namer, lin, isLast, isMore := kf.counter, kf.isCell, kf.namer, kf.lin, kf.isLast, kf.isMore
 	where := short(g.Name)
 	if g == closeFn {
 		where = "CloseFn"
